@@ -223,7 +223,7 @@ def p4_merge_per_entry_order(ctx):
                 r.unrec(f, "assignment to the running output offset", where(b, bi), "offset := %s (neither 0 nor offset + copied length)" % origin_str(o))
     W_new = {bi for bi, si in m.W_assign}
 
-    # state: (copied_this_iter, clean, pos_read, advanced, fresh_output, offset_is_zero)
+    # state: (copied_this_iter, clean, pos_read, advanced, fresh_output, offset_is_zero, hinted)
     def events(bb, e):
         out = []
         if bb in kd_blocks:
@@ -246,17 +246,19 @@ def p4_merge_per_entry_order(ctx):
         return sorted(out, key=lambda x: {"kd": 0, "inc": 1, "reset": 1, "newW": 1}.get(x.split(":")[0], 2))
 
     def delta(s, ev):
-        copied, clean, posr, adv, fresh, offzero = s
+        copied, clean, posr, adv, fresh, offzero, hinted = s
         if ev == "iter":
             if copied and not adv:
                 return "!the output offset is not advanced by the copied length before the next entry (entries would overlap in the index)"
-            return (False, clean, False, False, fresh, offzero)
+            if copied and not hinted and hint_blocks:
+                return "!an entry was copied and re-pointed but no hint record was appended for it in this iteration (recovery from hints would miss or misplace the key)"
+            return (False, clean, False, False, fresh, offzero, False)
         if ev == "copied":
             if fresh and not offzero:
                 return "!a new output file was started but the running offset was not reset to 0 before the next copy (entries in the new file are indexed at the cumulative offset)"
-            return (True, model_ok, posr, adv, False, offzero)
+            return (True, model_ok, posr, adv, False, offzero, False)
         if ev == "flush":
-            return (copied, True, posr, adv, fresh, offzero)
+            return (copied, True, posr, adv, fresh, offzero, hinted)
         if ev.startswith("kd:") or ev == "hint":
             what = "index entry re-pointed" if ev.startswith("kd:") else "hint record appended"
             if not copied:
@@ -267,22 +269,28 @@ def p4_merge_per_entry_order(ctx):
                 if adv:
                     return "!entry.pos is taken from the running offset after it was advanced (points at the end of the entry)"
                 posr = True
-            if ev == "hint" and not posr:
-                return "!hint record appended before the entry's new position was stored"
-            return (copied, clean, posr, adv, fresh, offzero)
+            if ev == "hint":
+                if not posr:
+                    return "!hint record appended before the entry's new position was stored"
+                if fresh:
+                    return "!hint record appended after the outputs were switched: it lands in the hint file of the NEXT output although the entry lives in the previous one"
+                hinted = True
+            return (copied, clean, posr, adv, fresh, offzero, hinted)
         if ev == "inc":
-            return (copied, clean, posr, True, fresh, False)
+            return (copied, clean, posr, True, fresh, False, hinted)
         if ev == "reset":
-            return (copied, clean, posr, adv, fresh, True)
+            return (copied, clean, posr, adv, fresh, True, hinted)
         if ev == "newW":
-            return (copied, clean, posr, adv, True, offzero)
+            if copied and not hinted and hint_blocks:
+                return "!the outputs are switched (rollover) before the hint record of the entry just copied was appended: the record would describe data file N in hint file N+1"
+            return (copied, clean, posr, adv, True, offzero, hinted)
         return s
 
     def on_exit(s, kind, rc, bb):
         return None
 
     # the initial creation of W also sets need_reset; the initial `offset = 0` precedes or follows it — both orders are fine
-    vs = explore(b, (False, True, False, False, False, False), events, delta, on_exit, follow=no_unwind)
+    vs = explore(b, (False, True, False, False, False, False, False), events, delta, on_exit, follow=no_unwind)
     if vs:
         for v in vs:
             r.bad(f, "copy(ok) ≺ [index re-point, hint append]; offset discipline", where(b, v.path[-1]), v.msg, witness(b, v))
@@ -492,7 +500,14 @@ def p5_merge_outputs_before_unlink(ctx):
         rbb, rt = m.rotates[0]
         oe, ee, _ = try_edges(b, rbb)
         rok = edge_set(oe)
-        classes = {c for c, d, rb in ret_classes(b, 0, lambda e: e.kind == "unwind" or (e.src, e.dst) in rok)}
+        # only paths on which merge outputs were created need the rotation (an early return when
+        # nothing is selected creates no file with an id above the active one)
+        starts = set()
+        for cbb2, _t in [(x, None) for x in {bi for bi, si in m.W_assign} | {bi for bi, si in m.H_assign}]:
+            starts.add(cbb2)
+        classes = set()
+        for sbb in starts:
+            classes |= {c for c, d, rb in ret_classes(b, sbb, lambda e: e.kind == "unwind" or (e.src, e.dst) in rok)}
         leak = [c for c in classes if c not in ("err", "unwind")]
         r.add(f, "P16: every Ok return rotated the active file (new_active_datafile ok)", bool(rok) and not leak, where(b, rbb), "" if not leak else "the merge can return Ok while the writer keeps appending to a file whose id is below the merge outputs — recovery would replay later writes before the merged copies")
         ao = arg_origin(b, rt, 1)
@@ -516,6 +531,20 @@ def s7_s8_merge_sets(ctx):
     r.add(f, "S7: each data output has a hint output (%d/%d)" % (len(d), len(h)), len(d) == len(h) and len(d) >= 1, short_span(b.span))
     ids = set(d) | set(h)
     r.add(f, "S7: data and hint outputs are named by the same id variable", len(ids) == 1 and None not in ids, short_span(b.span), "ids: %s" % sorted(str(x) for x in ids))
+    # creation order: the data file of a generation exists before its hint file (recovery derives
+    # ids from data files only: an orphan hint with a fresh id would be adopted by the next data file)
+    for cb in shipped_bodies(prog):
+        cs = [(bb, t, peel(arg_origin(cb, t, 0))) for _, bb, t in calls_in([cb], "storage::bitcask::log::create")]
+        hs = [(bb, t) for bb, t, o in cs if o[0] == "call" and o[1] and o[1].endswith("hintfile_name")]
+        ds = [(bb, t) for bb, t, o in cs if o[0] == "call" and o[1] and o[1].endswith("datafile_name")]
+        for hb, ht in hs:
+            dom = False
+            for db, dt in ds:
+                ok_e, _, _ = try_edges(cb, db)
+                oks = {(e.src, e.dst) for e in (ok_e or [])}
+                if oks and hb not in reach(cb, [0], blocked_edges=lambda e: (e.src, e.dst) in oks):
+                    dom = True
+            r.add(fam_name(cb), "S7: hint file is created only after its data file was created", dom, where(cb, hb), "" if dom else "a crash between the two creates leaves a hint file whose id no data file has: the id is reused and the stale hint shadows the new data file")
     # the stats entry counted live is the output's id
     for _, bb, t in calls_in([b], "storage::bitcask::log::LogStatistics::add_live"):
         o = arg_origin(b, t, 0)
